@@ -179,6 +179,33 @@ def props_of(prog, f, c09):
     return out or list(PROPS)
 
 
+def permuted_equal(form, ref, nparams):
+    """form with its parameters <P2>.. renamed by some permutation so that it equals ref (as multisets of effects in
+    order), else None"""
+    import itertools, re
+    if nparams < 3 or nparams > 5:
+        return None
+    idx = list(range(2, nparams + 1))
+    for perm in itertools.permutations(idx):
+        if list(perm) == idx:
+            continue
+        m = {'<P%d>' % a: '<Q%d>' % b for a, b in zip(idx, perm)}
+
+        def ren(x):
+            if isinstance(x, str):
+                y = re.sub(r'<P(\d+)>', lambda mo: m.get(mo.group(0), mo.group(0)), x)
+                return y.replace('<Q', '<P')
+            if isinstance(x, tuple):
+                return tuple(ren(z) for z in x)
+            return x
+        cand = tuple((tuple(sorted((ren(c), tr) for c, tr in g)) if isinstance(g, tuple) else g, kind, ren(text)) for (g, kind, text) in form)
+        cand_n = tuple((tuple(sorted([((G.norm_eq(c) if isinstance(c, str) else c), tr) for c, tr in g], key=str)), kind, text) for (g, kind, text) in cand)
+        ref_n = tuple((tuple(sorted(g, key=str)), kind, text) for (g, kind, text) in ref)
+        if sorted(map(str, cand_n)) == sorted(map(str, ref_n)):
+            return ref
+    return None
+
+
 def serves_writer(prog, f):
     """is f (transitively) called by a function of its tree that writes the arena? (its answers then steer the writes)"""
     from rules.live import mutates
@@ -196,6 +223,21 @@ def serves_writer(prog, f):
                 return True
             stack.append(caller)
     return False
+
+
+def count_dbg(node):
+    """number of debug-assertion expansions in a HIR tree"""
+    from hircanon import is_dbg
+    n = 0
+    if isinstance(node, dict):
+        if is_dbg(node):
+            return 1
+        for v in node.values():
+            n += count_dbg(v)
+    elif isinstance(node, list):
+        for v in node:
+            n += count_dbg(v)
+    return n
 
 
 def scrub_strings(t):
@@ -323,6 +365,14 @@ def run(ctx):
         if diffs:
             for inl in (False, True):
                 gs = {t: G.gef(prog, cores[t][key], inline=inl) for t in have}
+                if inl:
+                    # a private function whose parameters were reordered in one copy (together with its call sites, which
+                    # the inlined forms of its callers no longer show): compare up to a permutation of the parameters
+                    for t in have:
+                        if gs[t] != gs[ref_t]:
+                            alt = permuted_equal(gs[t], gs[ref_t], cores[t][key].body.arg_count)
+                            if alt is not None:
+                                gs[t] = alt
                 if all(gs[t] == gs[ref_t] for t in have):
                     diffs = []
                     f = cores[ref_t][key]
@@ -368,7 +418,11 @@ def run(ctx):
                 groups = {}
                 for t in have:
                     groups.setdefault(repr(dbg[t]), []).append(t)
-                if len(groups) > 1:
+                n_dbg = {t: count_dbg(cores[t][key].hir) for t in have}
+                if len(groups) > 1 and len(set(n_dbg.values())) > 1:
+                    # an assertion added (or dropped) in one copy is not a changed assertion
+                    ctx.add(RULE, f, 'assertions(%s)' % key[1], 'info', 'the copies carry different numbers of debug assertions (%s): nothing to compare' % n_dbg, ['C10'], f.line, nontrivial=False)
+                elif len(groups) > 1:
                     odd = sorted(groups.values(), key=len)[0]
                     fo = cores[odd[0]][key]
                     ctx.add(RULE, fo, 'assertions(%s)' % key[1], 'violation', 'the copies of %s are identical except for their debug assertions: the assertion in the %s copy tests something else than in the other cop%s (first difference at %s); an assertion that fails on a valid tree panics in debug builds' % (key[1], fams[odd[0]], 'ies' if len(have) > 2 else 'y', first_diff(dbg[[t for t in have if t not in odd][0]], dbg[odd[0]])),
